@@ -4,6 +4,7 @@
 package c04
 
 import (
+	"strings"
 	"testing"
 
 	"pgregory.net/rapid"
@@ -14,23 +15,35 @@ import (
 
 type Case struct {
 	Prog []*prog.N `json:"prog"`
+	// Feat: what the generator put into the program by construction (pattern counters)
+	Feat map[string]int `json:"feat,omitempty"`
 }
 
-var profile = prog.Profile{Scopes: true, MaxDepth: 4, MaxStmts: 4}
+var profile = prog.Profile{Scopes: true, Cross: true, HostChan: true, MaxDepth: 4, MaxStmts: 4}
 
 func gen(t *rapid.T) Case {
-	p, _ := prog.Generate(t, profile)
-	return Case{Prog: p}
+	p, f := prog.Generate(t, profile)
+	return Case{Prog: p, Feat: patternFeats(f)}
 }
 
 // union profile: scopes together with error handling and break/continue/return at every
 // position, so that scopes are left through every kind of exit (e.g. a catch block left by
 // continue inside a loop)
-var unionProfile = prog.Profile{Scopes: true, Control: true, Errors: true, MaxDepth: 4, MaxStmts: 4}
+var unionProfile = prog.Profile{Scopes: true, Control: true, Errors: true, Cross: true, HostChan: true, MaxDepth: 4, MaxStmts: 4}
 
 func genUnion(t *rapid.T) Case {
-	p, _ := prog.Generate(t, unionProfile)
-	return Case{Prog: p}
+	p, f := prog.Generate(t, unionProfile)
+	return Case{Prog: p, Feat: patternFeats(f)}
+}
+
+func patternFeats(f map[string]int) map[string]int {
+	out := map[string]int{}
+	for k, n := range f {
+		if strings.HasPrefix(k, "cross_") || strings.HasPrefix(k, "binder_") || strings.HasPrefix(k, "closure_") || k == "self_name" || k == "scope_cross" {
+			out[k] = n
+		}
+	}
+	return out
 }
 
 func oracle(c Case, o *h.Obs) *h.Fail {
@@ -51,6 +64,9 @@ func oracle(c Case, o *h.Obs) *h.Fail {
 		if f[k] > 0 {
 			o.Class(k)
 		}
+	}
+	for k := range c.Feat {
+		o.Class("pattern_" + k)
 	}
 	if !v.OK {
 		return h.Failf("C04|"+v.Clause, "program:\n%s\n%s", v.Src, v.Detail)
